@@ -1,6 +1,7 @@
 #ifndef IGRIS_UTIL_CTRDTR_H
 #define IGRIS_UTIL_CTRDTR_H
 
+#include <memory>
 #include <new>
 #include <utility>
 
@@ -32,7 +33,7 @@ namespace igris
     {
         while (first != last)
         {
-            igris::destructor(&*first);
+            igris::destructor(std::addressof(*first));
             ++first;
         }
     }
@@ -42,7 +43,7 @@ namespace igris
     {
         while (first != last)
         {
-            igris::constructor(&*first, args...);
+            igris::constructor(std::addressof(*first), args...);
             ++first;
         }
     }
